@@ -854,6 +854,7 @@ static std::string classify_case(const CaseFile &c) {
         std::vector<ustr> made;
         for (auto &op : ops) {
             if (op.code == O_PCREATE) { for (auto &n : op.s) if (name_valid(n) && n == cm::norm_name(n)) made.push_back(n); }
+            else if (op.code == O_PSET && !made.empty() && A(op, 2) > 0 && A(op, 2) % 2 == 0) return std::string(F_PKTKEY);   // re-spelling of an existing item chosen at run time
             else if (op.code == O_PSET && name_valid(S(op, 0))) for (auto &n : made) if (n != S(op, 0) && n == cm::norm_name(S(op, 0))) return std::string(F_PKTKEY);
         }
     }
